@@ -116,6 +116,18 @@ def replay(ctx, cx, h=None):
         st2 = st[:13] + [st[13]] * (2048 - 24) + st[13:]
         bad, what2 = _run(exe, st2, nmsg, [])
         if bad: return True, 're-scaled to the real FIX8_MAX_FLD_LENGTH=2048 (digit run extended by 2024 bytes): ' + what2
+    # a counterexample that depends on the scaled message buffer (96 bytes): re-scale the BodyLength value to the real FIX8_MAX_MSG_LENGTH,
+    # keeping the number of digits of the BodyLength text, and let the peer send that many bytes plus a trailer
+    try:
+        txt = bytes(st)
+        m_ = re.match(rb'8=([^\x01]*)\x019=([0-9]+)\x01', txt)
+        if m_:
+            digits = m_.group(2); v = int(digits); real = v + (8192 - 96)
+            if v <= 96 and len(str(real)) <= len(digits):
+                st4 = list(b'8=' + m_.group(1) + b'\x019=' + str(real).zfill(len(digits)).encode() + b'\x01') + [120] * real + list(b'10=000\x01')
+                bad, what4 = _run(exe, st4, nmsg, [])
+                if bad: return True, 're-scaled to the real FIX8_MAX_MSG_LENGTH=8192 (BodyLength %s -> %d, same digit count): %s' % (digits.decode(), real, what4)
+    except Exception: pass
     # the solver's stream is short: a reader that accepted an oversized length only overruns its buffer if the peer keeps sending
     bad, what3 = _run(exe, st + [120] * 9000, nmsg, [])
     if bad: return True, 'stream continued with 9000 filler bytes (peer keeps sending): ' + what3
